@@ -98,7 +98,7 @@ func suiteExpand(t *testing.T, cfg cfgT) {
 		}
 		ee.header(out)
 		var ts []*ketoapi.RelationTuple
-		shape := hr.intn(5)
+		shape := hr.intn(6)
 		add := func(ns, o, rel string, sid *string, ss *ketoapi.SubjectSet) {
 			ts = append(ts, &ketoapi.RelationTuple{Namespace: ns, Object: o, Relation: rel, SubjectID: sid, SubjectSet: ss})
 		}
@@ -127,6 +127,16 @@ func suiteExpand(t *testing.T, cfg cfgT) {
 			add("G", "c", "m", nil, &ketoapi.SubjectSet{Namespace: "G", Object: "d", Relation: "m"})
 			add("G", "c", "m", strp("u1"), nil)
 			add("G", "d", "m", strp("u0"), nil)
+		case 5: // the same STRING in different roles: one object under two relations, the same object name in two
+			// namespaces, a subject id spelled like an object; every node must keep its own namespace, relation and kind
+			add("G", "a", "m", nil, &ketoapi.SubjectSet{Namespace: "G", Object: "a", Relation: "o"})
+			add("G", "a", "m", strp("a"), nil)
+			add("G", "a", "o", nil, &ketoapi.SubjectSet{Namespace: "H", Object: "a", Relation: "m"})
+			add("G", "a", "o", strp("b"), nil)
+			add("H", "a", "m", strp("a"), nil)
+			add("H", "a", "m", strp("u1"), nil)
+			add("H", "a", "m", nil, &ketoapi.SubjectSet{Namespace: "G", Object: "b", Relation: "m"})
+			add("G", "b", "m", strp("b"), nil)
 		case 3: // a wide node: more than one page of children
 			k := 101 + hr.intn(25)
 			for i := 0; i < k; i++ {
